@@ -13,13 +13,27 @@ namespace Restful
 namespace Tie
 open Translated
 
+/-- a leaf of a comparison function after all its `if`s are split: a Boolean combination of integer
+    comparisons (`<`, `>`, `==` joined by `||` / `&&` when the cascade is written as one expression) against
+    the model's; as propositions both sides are linear arithmetic -/
+local macro "order_leaf" : tactic => `(tactic|
+  first
+  | rfl
+  | (simp_all <;> omega)
+  | (simp_all; omega)
+  | (simp_all; done)
+  | (rw [Bool.eq_iff_iff]
+     simp only [Bool.or_eq_true, Bool.and_eq_true, Bool.not_eq_true', decide_eq_true_eq, decide_eq_false_iff_not,
+       beq_iff_eq, bne_iff_ne, ne_eq]
+     omega))
+
 /-- curly_route.go `sortableCurlyRoutes.Less(i, j)` with `x = s[i]`, `y = s[j]` is `Curly.candLess x y` -/
 theorem curly_less (x y : Curly.Cand) :
     sortableCurlyRoutes_Less y.staticCount x.staticCount y.paramCount x.paramCount y.route.path x.route.path
       = Curly.candLess x y := by
   unfold sortableCurlyRoutes_Less Curly.candLess
   repeat' split
-  all_goals (first | rfl | (simp_all <;> omega) | (simp_all; omega) | simp_all)
+  all_goals order_leaf
 
 /-- jsr311.go `sortableRouteCandidates.Less` under `sort.Reverse` (`Less(i, j) = orig.Less(j, i)`):
     with `x` at `i` and `y` at `j` the original is called with `ci = y`, `cj = x` -/
@@ -28,7 +42,7 @@ theorem jsr_route_less (x y : Jsr.RouteCand) :
       y.nonDefaultCount x.nonDefaultCount y.route.path x.route.path = Jsr.routeCandLess x y := by
   unfold sortableRouteCandidates_Less Jsr.routeCandLess
   repeat' split
-  all_goals (first | rfl | (simp_all <;> omega) | (simp_all; omega) | simp_all)
+  all_goals order_leaf
 
 /-- jsr311.go `sortableDispatcherCandidates.Less` under `sort.Reverse` -/
 theorem jsr_dispatcher_less (x y : Jsr.DispCand) :
@@ -36,7 +50,7 @@ theorem jsr_dispatcher_less (x y : Jsr.DispCand) :
       y.nonDefaultCount x.nonDefaultCount = Jsr.dispCandLess x y := by
   unfold sortableDispatcherCandidates_Less Jsr.dispCandLess
   repeat' split
-  all_goals (first | rfl | (simp_all <;> omega) | (simp_all; omega) | simp_all)
+  all_goals order_leaf
 
 /-- which ordering is applied where, and by which algorithm: `sort.Sort` (insertion sort up to 12
     elements, which is stable) or `sort.Stable` (stable at every size: what the model's insertion
